@@ -718,6 +718,18 @@ func (c *Conn) WriteMessage(messageType MessageType, data []byte) error {
 	}
 
 	if len(data) > 0 {
+		if c.sendQueue != nil && c.sendQueueSize > 0 {
+			// a message is refused as a whole: a fragmented one that is cut off
+			// half way leaves the peer inside an unfinished message.
+			limit := c.Engine.MaxWebsocketFramePayloadSize
+			frames := 1
+			if limit > 0 {
+				frames = (len(data) + limit - 1) / limit
+			}
+			if len(c.sendQueue)+frames > int(c.sendQueueSize) {
+				return ErrMessageSendQuqueIsFull
+			}
+		}
 		sendOpcode := true
 		sendCompress := compress
 		for len(data) > 0 {
